@@ -6,7 +6,7 @@ values the way the library call moves concrete ones, so that a rule's verdict do
 whether a loop is written with indices, with an iterator chain or with an extracted helper.
 Anything not modelled falls through to the interpreter's havoc (fail closed in the rules)."""
 import exp
-from exp import Agg, AdaptIt, BV, Int, Opt, RangeIt, Ref, SliceIt, TOP, NotDerivable
+from exp import Agg, AdaptIt, BV, Either, Int, Opt, RangeIt, Ref, SliceIt, TOP, NotDerivable
 from facts import op_place
 
 
@@ -285,6 +285,24 @@ def std_transfer(I, fr, t, c, pth):
                 fr.storev(dest, I._call_closure_rw(fr, cl[0], cl[1], [o.payload], where))
                 return True
             return False
+        if m == 'map' and len(args) == 2 and isinstance(o, Opt):
+            cl = I._closure_value(fr, args[1])
+            if cl is None:
+                return False
+            if o.tag == 'none':
+                fr.storev(dest, Opt('none', TOP, o.label))
+                return True
+            paths = I._call_closure_paths(fr, cl[0], cl[1], [o.payload], where)
+            if not paths:
+                return False
+            lab = o.label or ('option', where)
+            alts = [(Opt('some', r_, o.label), ([(lab, 1)] if o.tag is None else []) + list(p_.labels), list(p_.events)) for p_, r_ in paths]
+            if o.tag is None:
+                alts.append((Opt('none', TOP, o.label), [(lab, 0)], []))
+            if len(alts) == 1:
+                fr.storev(dest, alts[0][0])
+                return True
+            return I.fork_alternatives(fr, t, pth, alts)
         if m == 'unwrap_or' and len(args) == 2 and isinstance(o, Opt) and o.tag in ('some', 'none'):
             fr.storev(dest, o.payload if o.tag == 'some' else fr.operand(args[1]))
             return True
@@ -413,4 +431,136 @@ def std_transfer(I, fr, t, c, pth):
             fr.storev(dest, Ref(rp[0], list(rp[1]) + ([['off', lo]] if lo else [])))
             return True
         return False
+    return False
+
+
+# ---------------------------------------------------------------------- Result / Option plumbing
+def two_variant(v, is_result):
+    """Normalise an abstract Option / Result to an Opt (variant 0 = None / Ok, variant 1 = Some / Err)."""
+    if isinstance(v, Opt):
+        return v
+    if isinstance(v, Agg) and v.kind and isinstance(v.kind[0], str):
+        if v.kind[0].endswith('result::Result') and v.kind[1] in ('Ok', 'Err'):
+            return Opt('none' if v.kind[1] == 'Ok' else 'some', v.items[0] if v.items else Agg([]))
+        if v.kind[0].endswith('ops::ControlFlow') and v.kind[1] in ('Continue', 'Break'):
+            return Opt('none' if v.kind[1] == 'Continue' else 'some', v.items[0] if v.items else Agg([]))
+    return None
+
+
+def side(o, variant):
+    pl = o.payload
+    return pl.pick(variant) if isinstance(pl, Either) else pl
+
+
+def neg_label(l):
+    if l is None:
+        return None
+    if isinstance(l, tuple) and l and l[0] == 'not':
+        return l[1]
+    return ('not', l)
+
+
+def result_transfer(I, fr, t, c, pth):
+    """`?`, map / map_err / ok_or / ok_or_else / unwrap / expect on modelled Option and Result values.  Combinators
+    never fork: an undecided value keeps both sides (Either) and the closure is applied to its own side only."""
+    name = c.get('name')
+    trait = c.get('trait')
+    d = c['def']
+    args = t['args']
+    dest = t['dest']
+    where = t['span']
+    targs = c.get('targs') or []
+    if name == 'branch' and trait == 'std::ops::Try' and len(args) == 1:
+        raw = fr.operand(args[0])
+        is_res = bool(targs and targs[0].startswith('std::result::Result'))
+        is_opt = bool(targs and targs[0].startswith('std::option::Option'))
+        o = two_variant(raw, is_res)
+        if o is None or not (is_res or is_opt):
+            return False
+        if is_res:
+            # Ok(v) -> Continue(v) ; Err(e) -> Break(Err(e))
+            fr.storev(dest, Opt(o.tag, Either(side(o, 0), ('residual-err', side(o, 1))) if o.tag is None else (side(o, 0) if o.tag == 'none' else ('residual-err', side(o, 1))), o.label))
+        else:
+            # Some(v) -> Continue(v) ; None -> Break(None)
+            tag = {'some': 'none', 'none': 'some', None: None}[o.tag]
+            pl = Either(side(o, 1), ('residual-none',)) if tag is None else (side(o, 1) if tag == 'none' else ('residual-none',))
+            fr.storev(dest, Opt(tag, pl, neg_label(o.label)))
+        return True
+    if name == 'from_residual' and len(args) == 1:
+        r = fr.operand(args[0])
+        if isinstance(r, tuple) and r and r[0] == 'residual-err':
+            fr.storev(dest, Opt('some', r[1]))
+            return True
+        if isinstance(r, tuple) and r and r[0] == 'residual-none':
+            fr.storev(dest, Opt('none', TOP))
+            return True
+        return False
+    is_res_m = d.startswith('std::result::Result::<T, E>::')
+    is_opt_m = d.startswith('std::option::Option::<T>::')
+    if not (is_res_m or is_opt_m) or not args:
+        return False
+    m = d.rsplit('::', 1)[-1]
+    o = two_variant(fr.operand(args[0]), is_res_m)
+    if o is None:
+        return False
+
+    def call(clop, argv):
+        cl = I._closure_value(fr, clop)
+        if cl is None:
+            raise NotDerivable('combinator argument is not a closure literal', where)
+        return I._call_closure_rw(fr, cl[0], cl[1], argv, where)
+    if is_res_m and m == 'map_err' and len(args) == 2:
+        if o.tag == 'none':
+            fr.storev(dest, o)
+        elif o.tag == 'some':
+            fr.storev(dest, Opt('some', call(args[1], [side(o, 1)]), o.label))
+        else:
+            fr.storev(dest, Opt(None, Either(side(o, 0), call(args[1], [side(o, 1)])), o.label))
+        return True
+    if is_res_m and m == 'map' and len(args) == 2:
+        if o.tag == 'some':
+            fr.storev(dest, o)
+        elif o.tag == 'none':
+            fr.storev(dest, Opt('none', call(args[1], [side(o, 0)]), o.label))
+        else:
+            fr.storev(dest, Opt(None, Either(call(args[1], [side(o, 0)]), side(o, 1)), o.label))
+        return True
+    if is_res_m and m == 'ok' and len(args) == 1:
+        # Result -> Option: Ok(v) -> Some(v)
+        tag = {'some': 'none', 'none': 'some', None: None}[o.tag]
+        fr.storev(dest, Opt(tag, Either(TOP, side(o, 0)) if tag is None else side(o, 0), neg_label(o.label)))
+        return True
+    if is_opt_m and m in ('ok_or', 'ok_or_else') and len(args) == 2:
+        # Option -> Result: Some(v) -> Ok(v), None -> Err(e)
+        if m == 'ok_or':
+            e = fr.operand(args[1])
+        else:
+            e = call(args[1], []) if o.tag != 'some' else TOP
+        tag = {'some': 'none', 'none': 'some', None: None}[o.tag]
+        pl = Either(side(o, 1), e) if tag is None else (side(o, 1) if tag == 'none' else e)
+        fr.storev(dest, Opt(tag, pl, neg_label(o.label)))
+        return True
+    if m in ('unwrap', 'expect') and len(args) >= 1:
+        good = 0 if is_res_m else 1
+        if o.tag is not None:
+            if (o.tag == 'some') == bool(good):
+                fr.storev(dest, side(o, good))
+                return True
+            pth.events.append(('unwrap-fails', where))
+            return 'panic'
+        # undecided: one continuing path with the good side, one panicking path
+        if I._fork_ctx is not None:
+            from exp import Path
+            np_ = Path()
+            np_.labels = list(pth.labels) + [(o.label or ('unwrap', where), 1 - good)]
+            np_.events = list(pth.events) + [('unwrap-fails', where)]
+            I._fork_ctx[1].append((np_, ('diverges', where), {}))
+        pth.labels = list(pth.labels) + [(o.label or ('unwrap', where), good)]
+        pth.events.append(('unwrap', o.label, where))
+        fr.storev(dest, side(o, good))
+        return True
+    if m in ('is_ok', 'is_err', 'is_some', 'is_none') and o.tag is not None:
+        v = {'is_ok': o.tag == 'none', 'is_err': o.tag == 'some', 'is_some': o.tag == 'some', 'is_none': o.tag == 'none'}[m]
+        fr.storev(dest, Int(int(v), 1))
+        return True
     return False
